@@ -35,7 +35,8 @@ static bool argument_should_escape(const char *argument)
 {
   ASSERT(argument);
 
-  bool should_escape = false;
+  // An empty argument must be quoted ("") or it vanishes from the command line.
+  bool should_escape = argument[0] == '\0';
 
   for (size_t i = 0; i < strlen(argument); i++) {
     should_escape = should_escape || argument[i] == ' ' ||
